@@ -20,7 +20,7 @@ from .. import guards as G
 from ..model import AnalysisError, dotted, src
 
 TECHNIQUE = "interprocedural keyed-container pairing (init vs stop), who-indexes-with-what, guard dominance over the unit module; abstract interpretation of small functions over an enumerated finite domain by the checker's own AST interpreter (static analysis)"
-ENGINES = ["model", "flow", "circuit"]
+ENGINES = ["model", "flow", "circuit", "session"]
 EXPLANATION = (
     "Over backend/executor.py, backend/qnodeos.py, sdk/shared_memory.py: parameter bindings are followed from "
     "init_new_application(app_id) and stop_application(app_id) through self-calls and class-method calls; the set of containers "
@@ -32,6 +32,7 @@ EXPLANATION = (
     ' Mark-then-map: from a statement that marks a physical address in use every path to a return or raise maps it or hands it on; no state effect precedes an explicit raise/assert in an executor method. C13.Z: no truthiness test on an int-typed value.'
     " Handing a marked address to a callee counts as mapping it only if the callee cannot raise before storing it (unless the caller's path facts exclude that raise); calls into the network stack are fault points; mutator calls on subscripted tables are state effects. C13.K: memoisation keys cover the arguments."
     ' _get_unused_physical_qubit is executed abstractly for six in-use sets (the address handed out is outside the set).'
+    " C13.H (abstract execution): the repository's Executor, built by its own constructor and driven by the checker's interpreter, is taken through every sequence of register / stop / allocate / free / write-and-return over two applications up to depth 4 (5 in the thorough tier): the legal operation is carried out, no other application's state changes, no physical qubit is mapped twice, the in-use set is the mapped set, a stopped application leaves nothing behind and starts clean again."
 )
 LEVEL_TEXT = (
     "Static analysis, partial: lifecycle pairing, used-set coherence, app-keyed indexing and allocation guards are decided for every "
